@@ -26,16 +26,100 @@ CLAIMED = {
          'Every grammatical element sequence below the bound is compiled as a PRINT statement, executed, and the text given to the terminal compared with a 20-line model of the property statement (number text + blank, strings verbatim, 14-column zones, line end rule).',
          'Item values are a boundary alphabet (zone widths 13/14/15/30, empty string, every numeric type), not all values; number-to-text itself is C16.',
          'DESIGN.md section 4, C17'),
+
+ 'C01': ('exploration',
+         'exhaustive bounded enumeration of typed programs (12 families: operators x operand types x boundary values, builtins, conversions, control-structure lists and nestings, FOR at type limits, SELECT, procedures with by-ref/by-value arguments and recursion, CONST/DEFtype/scoping, arrays and records, device statements, INPUT/INKEY$/RND/TIMER scripts) compiled in 6 configurations and run on the real VM in lock-step with an independent reference interpreter',
+         'Every program of the bounded families is compiled at O0..O2 with and without -g, executed on the real VM under a scripted environment, and its typed device-interaction trace and outcome (end / error class / failing line) compared with the reference interpreter qv.ref.interp (semantics written down in docs/REFSEM.md). Complete for the stated family bounds.',
+         'The reference interpreter is itself unverified (its calibration points are listed in docs/REFSEM.md); value domains are boundary alphabets; nothing claimed above the size/nesting bounds.',
+         'DESIGN.md section 4, C01'),
+ 'C02': ('exploration',
+         'exhaustive bounded enumeration: (a) generated programs (statement atoms x block wrappers, sequences) and the corpus compiled at O0..O3 with and without -g, O0 as oracle; (b) all constant expressions op a, a op b, (a op b) op c over boundary literals in three guises against run-time evaluation through variables; (c) all instruction windows up to length 3 (thorough 4) over the peephole alphabet executed on the real CPU before and after QvmCode.optimize()',
+         'Differential: all optimisation levels must agree on acceptance, device trace, outcome and trap line; every compile-time computed value must equal the unoptimised run-time value and a run-time failure must stay a run-time failure; every peephole rewrite must preserve stack, variables, trace and trap position of the window. Complete for the stated bounds.',
+         'Says nothing about whether O0 itself is right (C01). Boundary literal alphabet, window length and program size are bounded.',
+         'DESIGN.md section 4, C02'),
+ 'C03': ('model_checking',
+         'explicit-state exploration of a type-state abstraction of every emitted module (all paths: both arms of each jz, every call/return, GOSUB depth <= 3) with the safety invariants of the property evaluated in every abstract state, bound to the code by a tick-level concrete monitor: every concrete (pc, stack tags) of real runs must lie in the abstract reachable set',
+         'For each module of the bounded program space (generated programs, corpus, debuggee programs; 6 configurations) the abstraction is explored exhaustively; invariants: no operand-type confusion, no stack underflow, no undefined opcode, accesses inside frame/global area, control transfers to instruction starts, stored type = slot type, balanced stack at statement boundaries. Concrete runs are monitored per tick and replay the abstraction (conformance).',
+         'The abstraction forgets values (both branch arms explored), so language-level traps end a path; soundness of the abstraction rests on the per-tick conformance replay, not on proof.',
+         'DESIGN.md section 4, C03'),
+ 'C04': ('model_checking',
+         'explicit-state breadth-first search on the real VM (state hashing of canonical machine state) over write/read operation sequences given as environment input to one compiled driver per declaration list (15 shapes x 6 storage classes, lists, sandwiches, recursion, by-reference), against a dict store model',
+         'All operation sequences up to the depth bound on every declaration list of the bounded catalogue are executed on the real VM; after every transition the text printed and full dumps (constant and computed subscripts, caller view after return, unwind of recursion) must equal a location->value dictionary model.',
+         'Bounded catalogue of declaration shapes and depths; values are small sentinels; FUNCTION procedures, REDIM/ERASE not covered.',
+         'DESIGN.md section 4, C04'),
+ 'C05': ('fault_enumeration',
+         'exhaustive single-fault enumeration: 26 static rules / 337 fault variants injected at every applicable site of 14 contexts x 2 base programs (plus nested context pairs and unrelated-construct twins), each text compiled in 6 configurations',
+         'Every faulted text must be rejected in all 6 configurations with the error category of its rule and a position on the line of the offending construct, its un-faulted twin (also with an unrelated construct added elsewhere) must compile, and the command-line error display must succeed. Complete for the catalogue.',
+         'One fault at a time; column and message text are not judged; catalogue of rules is finite.',
+         'DESIGN.md section 4, C05'),
+ 'C07': ('model_checking',
+         'exhaustive enumeration of run-time failure programs and device answers (deviation-bounded: device failures, missing peripherals, non-finite answers) plus an interrupt-schedule explorer that injects the interrupt request at every instruction boundary of every run of a program catalogue, on the real VM',
+         'No host exception may escape tick()/run(); every run ends in halt, end of code or a trap whose category matches the cause; an interrupt injected at any instruction boundary with no handler armed stops the run with KEYBOARD_INTERRUPT before any further device event or memory change. Complete for the catalogues and deviation bound stated in the evidence.',
+         'Program catalogue and answer menus are finite; deviation bound as reported.',
+         'DESIGN.md section 4, C07'),
+ 'C09': ('exploration',
+         'exhaustive bounded enumeration of programs (corpus, 131 statement templates x lvalues x contexts, all 255 cp437 bytes x 6 positions, DATA layouts, synthesised/compiled size boundaries at 0/1/255/256/32767/32768/65535/65536) x 6 configurations; cross-agreement of bytes(code), QModule.parse, disassemble(), str(code) through an independent decoder and layout model',
+         'For every accepted program the loader must recover literals, DATA (empty vs "" distinct), global size and the instruction sequence; disassembly = listing = bytes; every jump/call/handler operand is an instruction start; variable operands lie inside frame/global area; frame declarations equal the storage computed by an independent layout model from the listing.',
+         'Differential between views plus an independent layout model; sizes above the stated boundaries not explored.',
+         'DESIGN.md section 4, C09'),
+ 'C10': ('model_checking',
+         'exhaustive enumeration of handler skeletons (5 arming/handler modes x bodies of failable statements from a 19-form alphabet) x all fault plans (which statements fail, with which of 5 error kinds, at 4 expression depths) given as environment input, run on the real VM at O0..O2 with -g; statement-level reference model + state differential',
+         'Every fault plan of every skeleton is executed; the device trace, end class and ERR must match a statement-level reference model of ON ERROR/RESUME/RESUME NEXT; after resuming, operand-stack depth and the whole machine state at later statement boundaries must equal those of the run in which the failed statement was absent; the epilogue exercises GOSUB/RETURN, CALL, FOR, FUNCTION.',
+         'Skeleton alphabet and body length bounded; cells the property leaves open (block headers, errors inside procedures beyond handler entry and ERR) are wildcards.',
+         'DESIGN.md section 4, C10'),
+ 'C11': ('exploration',
+         'exhaustive bounded enumeration of tagged programs (block shapes to depth 2, 48 statement kinds x block positions, failing headers/terminators, adjacent construct pairs, layout variants, corpus) compiled with -g at O0..O2; structural invariants of the debug map + ground truth from tags, announced device events and constructed error addresses',
+         'For every module: statement ranges begin/end on instruction boundaries, are laminar and nest like the source, cover every routine-body instruction exactly once at the innermost level, routine records equal routine extents recovered from call targets; every executed io instruction and every trap address is attributed (find_stmt) to the statement that caused it, with the right line and source extract.',
+         'Bounded program families; a statement is allowed to have no code.',
+         'DESIGN.md section 4, C11'),
+ 'C13': ('model_checking',
+         'exhaustive exploration of debugger stop points (every stop of step^k on 12 debuggees at O0/O2) x all well-typed expressions up to one operator over the names in scope (plus unknown names, bad subscripts, finished program), each a real Cmd.onecmd("print ...") compared with the program\'s own value obtained from a probe variant on a forked machine',
+         'At every stop the debugger value must equal the typed value the program itself computes for the same expression at the same point; evaluation must leave the canonical machine state and device trace unchanged, must never raise out of onecmd, and must report unknown names / bad subscripts as errors.',
+         'Quick tier only is registered: the thorough tier (two-operator expressions) still reports consequences of ledgered evaluator defects that are not yet triaged. Debuggee set and expression depth bounded.',
+         'DESIGN.md section 4, C13'),
+ 'C14': ('exploration',
+         'exhaustive enumeration of behaviour-neutral rewritings (26 rules: case, blanks, comments/lines, colon split/join, LET/CALL/NEXT/<> optional syntax, label and line-number renaming) at every applicable site, all sites at once, and all rule pairs (thorough: triples) over the corpus and 35 multi-feature programs; original vs rewritten compiled without parse cache',
+         'Every rewritten text must be accepted iff the original is and produce byte-identical sections 1-4, or at least the same device trace and outcome. Own tokenizer (no qbee import); strings, comments, DATA bodies and numerals are never rewritten.',
+         'Conservative rule applicability (sites where neutrality is unclear are skipped); program set finite.',
+         'DESIGN.md section 4, C14'),
+ 'C15': ('model_checking',
+         'explicit-state breadth-first search on the real VM over READ/RESTORE operation sequences (environment input to one driver per arrangement of DATA statements, labels, line numbers, SUBs and executed code), closed state graphs (cursor-only state) against an item-list/cursor model; plus exhaustive DATA texts up to length 5 (thorough 6-8) over a 6-symbol alphabet against a reference tokenizer and a conversion matrix',
+         'Every arrangement below the bound is explored until the state graph closes (so the verdict holds for operation sequences of any length on that arrangement); every transition must deliver the item the cursor model prescribes or the prescribed error. Tokenisation and item conversion are compared with a three-valued reference on every text of the bounded alphabet.',
+         'Arrangements up to 4 (thorough 5) elements; texts with a quote inside an unquoted item or text after a closing quote are unspecified.',
+         'DESIGN.md section 4, C15'),
+ 'C16': ('exploration',
+         'exhaustive enumeration of all 65536 INTEGER values and complete structured sets of LONG/SINGLE/DOUBLE values (powers of 2 and 10 +-1 ulp, limits, subnormals, all short mantissas x all exponents, decimal rounding boundaries) through compiled PRINT, STR$, VAL, INPUT and READ on the real VM against exact rational arithmetic',
+         'For every value: the text is the plain decimal form (integers) or a numeral of <= 7/17 significant digits within half a unit of its last digit of the exact value; PRINT and STR$ agree; a number and its negation show the same digits; VAL, INPUT and READ of the text give the value back to that precision.',
+         'LONG/SINGLE/DOUBLE are structured sets, not all bit patterns.',
+         'DESIGN.md section 4, C16'),
+ 'C18': ('model_checking',
+         'explicit-state exploration on the real VM of all response-line histories (up to 2-3 rejected lines over a 16-28 line alphabet, closed with a valid line) for INPUT statements over prompt forms x same-line flag x 1-3 variables x 5 types x target kinds x placements, at O0/O2 with and without -g; acceptance model + state equality',
+         'Prompt protocol text, accept/reject decision, converted values and types are compared with a three-valued acceptance model written from the statement; the canonical machine state and continuation trace after [bad..., good] must equal those after [good]; all four configurations must agree.',
+         'Cells the statement leaves open (empty numeric field, quoted fields, &H, blank-padded numbers) are only checked for cross-configuration agreement.',
+         'DESIGN.md section 4, C18'),
+ 'C19': ('exploration',
+         'exhaustive enumeration of all PRINT USING format strings up to length 4 (thorough 6) over a 10-symbol alphabet x 61 statement shapes x boundary values, through one compiled looping program on the real VM (format and values are environment input), against a three-valued field model; direct-formatter path conformance-checked against the compiled path',
+         'Every well-formed cell must print the model text: literals and escaped characters copied, & and ! fields, numeric fields rounded to the field decimals, right-aligned in exactly the field width including sign position, thousands separators, % only on overflow, values consumed left to right, line-break rule.',
+         'Malformed field shapes, exact binary rounding ties and mismatched value lists are unspecified (no crash is C07).',
+         'DESIGN.md section 4, C19'),
+ 'C20': ('exploration',
+         'exhaustive enumeration of compile histories (all sequences up to the bound over a program alphabet incl. failing compiles, DEFtype, TYPE, -g and level changes) in one process vs a fresh process x hash seeds x working directories; run repetitions',
+         'Sections 1-4 and the listing must be byte-identical across processes, hash seeds, working directories and preceding compile histories; repeated runs of a module with the same script must give the same trace, outcome and tick count.',
+         'Independence of wall-clock time is an assumption (no clock seam in the compiler).',
+         'DESIGN.md section 4, C20'),
 }
-NA_REASON = 'check not built yet in this session (planned, see DESIGN.md section 4); not claimed until it exists and is silent on the unchanged tree'
+NA_REASON = 'check built (qv/checks) but not yet silent on the repaired tree in this session: triage in progress; not claimed until it is'
+
+ENABLED = {'C01', 'C02', 'C03', 'C04', 'C05', 'C06', 'C08', 'C09', 'C12', 'C13', 'C14', 'C15', 'C16', 'C17', 'C18', 'C19', 'C20'}
+QUICK_ONLY = {'C01', 'C02', 'C03', 'C04', 'C05', 'C09', 'C13', 'C14', 'C15', 'C16', 'C18', 'C19', 'C20'}   # thorough tiers are added once seen to exit 0 on the repaired tree
 
 def main():
     checks = []
     for pid in PROPS:
-        if pid not in CLAIMED:
+        if pid not in CLAIMED or pid not in ENABLED:
             continue
         cat, tech, text, note, ref = CLAIMED[pid]
-        checks.append({
+        entry = {
             'property_id': pid,
             'quick_cmd': f'bin/check {pid} --tier quick',
             'thorough_cmd': f'bin/check {pid} --tier thorough',
@@ -45,7 +129,10 @@ def main():
             'level_claimed': {'category': cat, 'text': text, 'design_ref': ref},
             'level_note': note,
             'technique': tech,
-        })
+        }
+        if pid in QUICK_ONLY:
+            del entry['thorough_cmd']
+        checks.append(entry)
     m = {
         'version': 1,
         'setup_cmd': 'bin/setup',
@@ -56,15 +143,15 @@ def main():
             'source_commits': [],
             'add_only': True,
         },
-        'engines': [{'name': 'qv', 'path': '/verif/qv', 'serves_properties': sorted(CLAIMED),
+        'engines': [{'name': 'qv', 'path': '/verif/qv', 'serves_properties': sorted(ENABLED),
                      'kind_free_text': 'hand-written explicit-state / bounded-exhaustive explorers in Python driving the real qbee compiler, QVM and debugger'}],
         'checks': checks,
-        'not_applicable': [{'property_id': p, 'reason': NA_REASON} for p in PROPS if p not in CLAIMED],
+        'not_applicable': [{'property_id': p, 'reason': NA_REASON} for p in PROPS if p not in ENABLED],
         'notes': 'All checks run the real code from /repo\'s working tree; see DESIGN.md. known_findings.json lists genuine defects (open / fixed).',
     }
     with open(os.path.join(HERE, 'MANIFEST.json'), 'w') as f:
         json.dump(m, f, indent=1)
-    print('MANIFEST.json: claimed', sorted(CLAIMED), 'not_applicable', len(m['not_applicable']))
+    print('MANIFEST.json: claimed', sorted(ENABLED), 'not_applicable', len(m['not_applicable']))
 
 if __name__ == '__main__':
     main()
